@@ -411,6 +411,14 @@ def _run_hypothesis(strategy_fn, prop, n_cases, sd, classify, h: Harness, shrink
 def main_run(mod, tier: str, seed: int) -> int:
     h = Harness(mod.PID, tier, seed, mod.RULE, getattr(mod, "LEVEL", "exploration"))
     try:
+        try:  # import once in the parent so forked workers share it (importing in 16 children at once is slow)
+            import pytezos  # noqa: F401
+            import hypothesis  # noqa: F401
+        except Exception as e:  # a tree that does not even import breaks every property
+            print("  detail: import pytezos failed: %r" % (e,))
+            print("VIOLATION property=%s replay=%s" % (mod.PID, write_violation(mod.PID, {
+                "sig": "import", "msg": "import pytezos failed: %r" % (e,), "case": {"import": "pytezos"}})))
+            return 1
         classify = getattr(mod, "classify", None)
         h.run_replays(mod.replay, classify)
         mod.run(h)
